@@ -1092,6 +1092,73 @@ class Extract:
         self.prelude = ""
         self.depth = 0
         self._crate_fns = None
+        self.extra_io = set()
+
+    # -- general values during partial evaluation: str (template), int (literal), ('variant', Name) (the instruction
+    #    the arm is evaluated for), tuple of values; None = unknown (an error only when used)
+    def val(self, e, env):
+        k = e.get("k")
+        if k == "int":
+            return _int_lit(str(e["v"]) + (e.get("suffix") or ""))[0]
+        if k == "path" and e["path"] in env and env[e["path"]] is not None and not isinstance(env[e["path"]], str):
+            return env[e["path"]]
+        if k == "ref" or (k == "unary" and e["op"] == "*"):
+            inner = e["e"]
+            if inner.get("k") in ("path", "int", "tuple", "match"):
+                return self.val(inner, env)
+        if k == "tuple":
+            out = []
+            for x in e["elems"]:
+                try:
+                    out.append(self.val(x, env))
+                except Unknown:
+                    if self.mentions_io(x):
+                        raise
+                    out.append(None)
+            return tuple(out)
+        if k == "match":
+            # partial evaluation of a match on a literal argument / on the instruction being evaluated
+            sc = self.val(e["scrut"], env)
+            for a in synq.arms(e):
+                hit = False
+                for alt, head in zip(a.alts, a.heads):
+                    if head == "_":
+                        hit = True
+                    elif isinstance(sc, int) and not isinstance(sc, bool) and alt.get("k") == "p_lit" and alt["lit"].get("k") == "int":
+                        hit = _int_lit(str(alt["lit"]["v"]))[0] == sc
+                    elif isinstance(sc, tuple) and len(sc) == 2 and sc[0] == "variant" and alt.get("k") in ("p_path", "p_struct", "p_tuple_struct", "p_ident"):
+                        hit = synq.short(head) == sc[1]
+                    elif isinstance(sc, str) or sc is None:
+                        raise Unknown("match on a value that is not a literal")
+                    if hit:
+                        break
+                if hit:
+                    if a.guard is not None:
+                        raise Unknown("match guard during partial evaluation")
+                    body = a.body
+                    if body.get("k") == "block":
+                        return self.val_block(body, env)
+                    return self.val(body, env)
+            raise Unknown("no arm of the match applies")
+        if k == "block":
+            return self.val_block(e, env)
+        return self.s(e, env)
+
+    def val_block(self, e, env):
+        env = dict(env)
+        stmts = e["stmts"]
+        if not stmts or stmts[-1].get("k") != "expr_stmt" or stmts[-1].get("semi"):
+            raise Unknown("block without a tail value")
+        self.run(stmts[:-1], env)
+        return self.val(stmts[-1]["e"], env)
+
+    def bind(self, pat, v, env):
+        k = pat.get("k")
+        if k == "p_ident" and not pat.get("sub"):
+            env[pat["name"]] = v
+        elif k == "p_tuple" and isinstance(v, tuple) and len(v) == len(pat["elems"]) and v[:1] != ("variant",):
+            for pe, ve in zip(pat["elems"], v):
+                self.bind(pe, ve, env)
 
     def crate_fns(self, name):
         """functions / methods called `name` defined anywhere in the crate of the function under analysis"""
@@ -1121,22 +1188,26 @@ class Extract:
         env2 = {}
         for p, a in zip(params, args):
             try:
-                env2[p["pat"]["name"]] = self.s(a, env)
+                env2[p["pat"]["name"]] = self.val(a, env)
             except Unknown:
-                env2[p["pat"]["name"]] = None  # not a string template: poison (an error only if the body uses it)
-        # the helper must be a pure string builder: only `let`s and a tail expression
+                env2[p["pat"]["name"]] = None  # not a template / literal: poison (an error only if the body uses it)
+        # the helper must end in one string expression; statements before it may only be `let`s (partially evaluated
+        # on the literal arguments) and generator bookkeeping that does not touch the parameters; no early exit
         stmts = f.body.get("stmts", [])
-        if not stmts or any(st.get("k") != "let" for st in stmts[:-1]) or stmts[-1].get("k") != "expr_stmt" or stmts[-1].get("semi"):
-            raise Unknown(f"{what}: body of `{name}` is not `let`s followed by one string expression")
-        saved = (self.operands, self.results, self.operand_str, self.closures)
+        if not stmts or stmts[-1].get("k") != "expr_stmt" or stmts[-1].get("semi"):
+            raise Unknown(f"{what}: body of `{name}` does not end in one string expression")
+        if any(n.get("k") in ("return", "try", "while", "loop", "for") for n in synq.walk(f.body)):
+            raise Unknown(f"{what}: body of `{name}` has an early exit or a loop")
+        saved = (self.operands, self.results, self.operand_str, self.closures, self.extra_io)
         self.operands = self.results = self.operand_str = None  # the helper sees only its parameters
         self.closures = {}
+        self.extra_io = {p["pat"]["name"] for p in params}
         self.depth += 1
         try:
             out = self.run(stmts, env2, want_tail=True)
         finally:
             self.depth -= 1
-            self.operands, self.results, self.operand_str, self.closures = saved
+            self.operands, self.results, self.operand_str, self.closures, self.extra_io = saved
         if out is None:
             raise Unknown(f"{what}: `{name}` has no string value")
         return out
@@ -1149,7 +1220,7 @@ class Extract:
         if k == "path":
             p = e["path"]
             if p in env:
-                if env[p] is None:
+                if not isinstance(env[p], str):
                     raise Unknown(f"`{p}` is bound to something that is not a string template")
                 return env[p]
             if p == self.operand_str:
@@ -1178,6 +1249,11 @@ class Extract:
             if tail is None:
                 raise Unknown("block without a string tail")
             return tail
+        if k == "match":
+            v = self.val(e, env)
+            if not isinstance(v, str):
+                raise Unknown("match does not evaluate to a string template")
+            return v
         if k == "call" and e["func"].get("k") == "path" and e["func"]["path"] not in self.closures:
             return self.inline(synq.short(e["func"]["path"]), e["args"], env, f"`{synq.render(e)[:50]}`")
         if k == "mcall" and synq.render(e["recv"]).split(".")[0] == "self":
@@ -1213,7 +1289,7 @@ class Extract:
         return "".join(out)
 
     def mentions_io(self, node):
-        names = {self.operands, self.results, self.operand_str} - {None}
+        names = ({self.operands, self.results, self.operand_str} | self.extra_io) - {None}
         return any(n.get("k") == "path" and n["path"] in names for n in synq.walk(node))
 
     def stmt_expr(self, e, env):
@@ -1258,9 +1334,9 @@ class Extract:
                 for b in synq.walk(st["pat"]):
                     if b.get("k") == "p_ident":
                         env[b["name"]] = None
-                if st["pat"].get("k") == "p_ident" and init is not None:
+                if init is not None:
                     try:
-                        env[st["pat"]["name"]] = self.s(init, env)
+                        self.bind(st["pat"], self.val(init, env), env)
                     except Unknown:
                         if self.mentions_io(init):
                             raise
@@ -1276,14 +1352,16 @@ class Extract:
         return tail
 
 
-def emit_template(fn, arm):
-    """template pushed by an arm of a backend's `Bindgen::emit` for a one-operand, one-result instruction"""
+def emit_template(fn, arm, ins=None):
+    """template pushed by an arm of a backend's `Bindgen::emit` for a one-operand, one-result instruction; `ins` = the
+    alternative of an or-pattern arm being evaluated (an inner `match inst {..}` is resolved for it)"""
     ps = [p for p in fn.params if p != "self"]
     if len(ps) < 4:
         raise Unknown("emit: unexpected signature")
     x = Extract(fn, operands=ps[2], results=ps[3])
     body = arm.body
-    x.run(body["stmts"] if body.get("k") == "block" else [{"k": "expr_stmt", "e": body, "semi": True}], {})
+    env = {ps[1]: ("variant", ins)} if ins is not None and ps[1] is not None else {}
+    x.run(body["stmts"] if body.get("k") == "block" else [{"k": "expr_stmt", "e": body, "semi": True}], env)
     if len(x.pushed) != 1:
         raise Unknown(f"arm pushes {len(x.pushed)} results (expected exactly one)")
     return Tmpl(x.pushed[0], x.prelude)
@@ -1747,7 +1825,7 @@ if __name__ == "__main__":
         for ins in SCALAR_INSTRUCTIONS:
             a = synq.arm_for(m, "Instruction::" + ins)
             try:
-                v = check_scalar(be, ins, emit_template(f, a), hp)
+                v = check_scalar(be, ins, emit_template(f, a, ins), hp)
             except Unknown as e:
                 v = Verdict(False, f"extract: {e}")
             print(f"  {'ok  ' if v.ok else 'FAIL'} {ins:16} {v.detail}")
